@@ -169,33 +169,56 @@ def fillSeq {β} (total : Nat) : List (List β) → Nat → (Nat → β) → Exc
       let buf' ← writeWindow total buf start xs
       fillSeq total rest (start + xs.length) buf'
 
+/-- `keys = [k.name for k in handle.list_nodes('/')]` for an Ellipsis -/
+def resolveKeys {α} (f : H5File α) : Keys → List Name
+  | .all => listNodes (names f)
+  | .list ks => ks
+
+/-- `handle.get_node(where='/', name=k)` for every key (first missing key raises) -/
+def lookupAll {α} (f : H5File α) (ks : List Name) : Except Err (List (Node α)) :=
+  ks.mapM fun k => match getNode f k with
+    | none => .error .noSuchNode
+    | some nd => .ok nd
+
+/-- the checks of the several-keys branch, in the order of the code: `shapes[0]` (IndexError
+for no keys), equal number of dimensions, equal non-ragged dimensions, equal dtype.
+Returns the first node (its dtype / inner shape describe the result). -/
+def checkNodes {α} (nodes : List (Node α)) : Except Err (Node α) :=
+  match nodes with
+  | [] => .error .indexError
+  | n0 :: _ =>
+    if !(nodes.all fun nd => nd.inner.length == n0.inner.length) then .error .dataInvalid
+    else if !(nodes.all fun nd => nd.inner == n0.inner) then .error .dataInvalid
+    else if !(nodes.all fun nd => nd.dtype == n0.dtype) then .error .dataInvalid
+    else .ok n0
+
+/-- several keys: `lengths = (shape[0] + stride - 1) // stride`, `concat = np.zeros(sum(lengths))`,
+sequential fill with `node[::stride]` (a zero stride raises `ValueError` at the first slice;
+the length formula itself only warns, the shapes being numpy integers). -/
+def loadMany {α} [Inhabited α] (nodes : List (Node α)) (stride : Nat) : Except Err (Loaded α) :=
+  match checkNodes nodes with
+  | .error e => .error e
+  | .ok n0 =>
+    if stride = 0 then .error .valueError else
+    let lengths := nodes.map fun nd => ceilDiv nd.data.length stride
+    let total := lengths.sum
+    match fillSeq total (nodes.map fun nd => strideSel stride nd.data) 0 (fun _ => default) with
+    | .error e => .error e
+    | .ok buf => .ok (.ragged n0.dtype n0.inner ((List.range total).map buf) lengths)
+
 /-- `ra.load(input_name, keys=keys, stride=stride)` for `keys` an Ellipsis or a list. -/
-def load {α} [Inhabited α] (f : H5File α) (keys : Keys) (stride : Nat) : Except Err (Loaded α) := do
-  let ks := match keys with
-    | .all => listNodes (names f)
-    | .list ks => ks
-  match ks with
+def load {α} [Inhabited α] (f : H5File α) (keys : Keys) (stride : Nat) : Except Err (Loaded α) :=
+  match resolveKeys f keys with
   | [k] =>
     match getNode f k with
-    | none => throw .noSuchNode
+    | none => .error .noSuchNode
     | some nd =>
-      if stride = 0 then throw .valueError
-      else pure (.plain nd.dtype nd.inner (strideSel stride nd.data))
-  | _ =>
-    let nodes ← ks.mapM fun k => match getNode f k with
-      | none => throw Err.noSuchNode
-      | some nd => pure nd
-    match nodes with
-    | [] => throw .indexError
-    | n0 :: _ =>
-      if !(nodes.all fun nd => nd.inner.length == n0.inner.length) then throw .dataInvalid
-      if !(nodes.all fun nd => nd.inner == n0.inner) then throw .dataInvalid
-      let lengths := nodes.map fun nd => ceilDiv nd.data.length stride
-      if !(nodes.all fun nd => nd.dtype == n0.dtype) then throw .dataInvalid
-      if stride = 0 then throw .valueError
-      let total := lengths.sum
-      let buf ← fillSeq total (nodes.map fun nd => strideSel stride nd.data) 0 (fun _ => default)
-      pure (.ragged n0.dtype n0.inner ((List.range total).map buf) lengths)
+      if stride = 0 then .error .valueError
+      else .ok (.plain nd.dtype nd.inner (strideSel stride nd.data))
+  | ks =>
+    match lookupAll f ks with
+    | .error e => .error e
+    | .ok nodes => loadMany nodes stride
 
 /-! ### `load_as_concatenated` -/
 
@@ -223,9 +246,15 @@ def insertFrames {β} : List (FileSpec β) → Nat → List Nat → List Nat
   | a :: as, i, ls => insertFrames as (i + 1) (if a.hasFrame then pyInsert i 1 ls else ls)
 
 /-- the `lengths is None` branch -/
-def soundAll {β} (specs : List (FileSpec β)) : Except Err (List Nat) := do
-  let ls ← (specs.filter fun a => !a.hasFrame).mapM fun a => soundTrajectory a.nFrames a.stride
-  pure (insertFrames specs 0 ls)
+def soundAll {β} (specs : List (FileSpec β)) : Except Err (List Nat) :=
+  match (specs.filter fun a => !a.hasFrame).mapM fun a => soundTrajectory a.nFrames a.stride with
+  | .error e => .error e
+  | .ok ls => .ok (insertFrames specs 0 ls)
+
+/-- `lengths`: sounded, or the caller's hint (only its length is checked here) -/
+def resolveLengths {β} (specs : List (FileSpec β)) : Option (List Nat) → Except Err (List Nat)
+  | none => soundAll specs
+  | some ls => if ls.length ≠ specs.length then .error .improperlyConfigured else .ok ls
 
 /-- `[sum(lengths[0:i]) for i in range(len(lengths))]` -/
 def offsets (lengths : List Nat) : List Nat := (List.range lengths.length).map fun i => (lengths.take i).sum
@@ -241,22 +270,26 @@ def runOrder {β} (total : Nat) (ts : List (Nat × List β)) : List Nat → (Nat
   | i :: rest, buf =>
     match ts[i]? with
     | none => .error .badSchedule
-    | some (pos, xs) => do
-      let buf' ← writeWindow total buf pos xs
-      runOrder total ts rest buf'
+    | some (pos, xs) =>
+      match writeWindow total buf pos xs with
+      | .error e => .error e
+      | .ok buf' => runOrder total ts rest buf'
 
 /-- `load_as_concatenated(filenames, lengths=hint, args=...)`; `order` is the order in which
 the pool workers happen to perform their writes; `init` is the (arbitrary) initial content of
-the shared buffer.  Returns `(lengths, xyz)`. -/
+the shared buffer.  Returns `(lengths, xyz)`.  A worker's exception is re-raised by
+`proc.get()` before the final total check. -/
 def loadAsConcatenated {β} (specs : List (FileSpec β)) (hint : Option (List Nat))
-    (order : List Nat) (init : Nat → β) : Except Err (List Nat × List β) := do
-  let lengths ← match hint with
-    | none => soundAll specs
-    | some ls => if ls.length ≠ specs.length then throw Err.improperlyConfigured else pure ls
-  let total := lengths.sum
-  let ts := tasks lengths specs
-  let buf ← runOrder total ts order init
-  if ((ts.map fun t => t.2.length).sum) ≠ total then throw .dataInvalid
-  pure (lengths, (List.range total).map buf)
+    (order : List Nat) (init : Nat → β) : Except Err (List Nat × List β) :=
+  match resolveLengths specs hint with
+  | .error e => .error e
+  | .ok lengths =>
+    let total := lengths.sum
+    let ts := tasks lengths specs
+    match runOrder total ts order init with
+    | .error e => .error e
+    | .ok buf =>
+      if (ts.map fun t => t.2.length).sum ≠ total then .error .dataInvalid
+      else .ok (lengths, (List.range total).map buf)
 
 end Ens.Store
